@@ -155,6 +155,16 @@ def startOfLine (lb : LB) : Except Panic Nat := do
   | some i => pure (i + 1)
   | none => pure 0
 
+/-- `first_print` (fix D46): offset of the first grapheme of the current line that holds no white space (vi `^`),
+    the end of the line when the line is blank -/
+def firstPrint (S : Segmenter) (U : UData) (lb : LB) : Except Panic Nat := do
+  let start ← lb.startOfLine
+  let e ← lb.endOfLine
+  let line ← slice lb.buf start e
+  match (gidx S line).find? (fun (_, g) => !g.any U.ws) with
+  | some (i, _) => pure (start + i)
+  | none => pure e
+
 /-- `grapheme_at_cursor` -/
 def graphemeAtCursor (S : Segmenter) (lb : LB) : Except Panic (Option Text) :=
   if lb.pos == lb.len then pure none
@@ -356,22 +366,15 @@ def copy (S : Segmenter) (U : UData) (lb : LB) (mvt : Movement) : Except Panic (
       if lb.pos == start then pure none else do
         let t ← slice lb.buf start lb.pos
         pure (some t)
-    | .viFirstPrint =>
-      if lb.pos == 0 then pure none
-      else do
-        let first ← match lb.buf.head? with
-          | some c => if U.ws c then nextWordPos S U lb 0 .start .big 1 else pure (some 0)
-          | none => pure (some 0)
-        match first with
-        | none => pure none
-        | some p =>
-          if p < lb.pos then do
-            let t ← slice lb.buf p lb.pos
-            pure (some t)
-          else if p > lb.pos then do
-            let t ← slice lb.buf lb.pos p
-            pure (some t)
-          else pure none
+    | .viFirstPrint => do
+      let first ← firstPrint S U lb
+      if first < lb.pos then do
+        let t ← slice lb.buf first lb.pos
+        pure (some t)
+      else if first > lb.pos then do
+        let t ← slice lb.buf lb.pos first
+        pure (some t)
+      else pure none
     | .endOfLine => do
       let e ← lb.endOfLine
       if lb.pos == e then pure none else do
@@ -602,6 +605,13 @@ def moveHome (S : Segmenter) (U : UData) : LM Bool := do
   let start ← ro startOfLine
   let lb ← get
   if lb.pos > start then setPos start; return true else return false
+
+/-- `move_to_first_print` (fix D46) -/
+def moveToFirstPrint (S : Segmenter) (U : UData) : LM Bool := do
+  let p ← ro (firstPrint S U)
+  let lb ← get
+  setPos p
+  return (p != lb.pos)
 
 def moveEnd (S : Segmenter) (U : UData) : LM Bool := do
   let e ← ro endOfLine
@@ -929,7 +939,16 @@ def kill (S : Segmenter) (U : UData) (mvt : Movement) : LM Bool := do
         let _ ← drainAround a b lb.pos
         pure true
       | none => pure false
-    | .viFirstPrint => pure false
+    | .viFirstPrint => do
+      let first ← ro (firstPrint S U)
+      let lb ← get
+      if first < lb.pos then do
+        let _ ← drain first lb.pos .backward
+        setPos first
+      else if first > lb.pos then do
+        let _ ← drain lb.pos first .forward
+        pure ()
+      pure (first != lb.pos)
     | .endOfBuffer => killBuffer S U
     | .beginningOfBuffer => discardBuffer S U
     | .wholeBuffer => do
@@ -1035,7 +1054,7 @@ inductive Op
   | yank (t : Text) (n : Nat)
   | yankPop (size : Nat) (t : Text)
   | moveBackward (n : Nat) | moveForward (n : Nat)
-  | moveBufferStart | moveBufferEnd | moveHome | moveEnd
+  | moveBufferStart | moveBufferEnd | moveHome | moveEnd | moveToFirstPrint
   | isEndOfInput
   | delete (n : Nat) | backspace (n : Nat)
   | killLine | killBuffer | discardLine | discardBuffer
@@ -1072,6 +1091,7 @@ def Op.run (S : Segmenter) (U : UData) : Op → LM Ret
   | .moveBufferStart => do return .bool (← LB.moveBufferStart S U)
   | .moveBufferEnd => do return .bool (← LB.moveBufferEnd S U)
   | .moveHome => do return .bool (← LB.moveHome S U)
+  | .moveToFirstPrint => do return .bool (← LB.moveToFirstPrint S U)
   | .moveEnd => do return .bool (← LB.moveEnd S U)
   | .isEndOfInput => do return .bool (LB.isEndOfInput U (← get))
   | .delete n => do return .optText (← LB.delete S U n)
